@@ -106,6 +106,13 @@ Next == \/ \E k \in {"stored", "deleted"}, m \in Msgs : Emit(Ev(k, m))
         \/ \E a \in active : Return(a)
 Spec == Init /\ [][Next]_vars
 
+(* Liveness: drain goroutines and listener calls keep running *)
+FairSpec == Spec /\ \A l \in Lanes : WF_vars(Take(l)) /\ WF_vars(Retire(l)) /\ WF_vars(TakeBatch(l)) /\ WF_vars(RunBatch(l))
+                 /\ WF_vars(\E a \in active : Return(a)) /\ WF_vars(\E e \in free : Spawned(e))
+(* every announced event is handed to the listener in the end *)
+Elems(sq) == {sq[i] : i \in DOMAIN sq}
+EventuallyHandled == \A m \in Msgs, k \in {"stored", "deleted"} : (Ev(k, m) \in Elems(emitted)) ~> (Ev(k, m) \in Elems(done))
+
 (***************************************************************************)
 (* C16 on this path                                                        *)
 (***************************************************************************)
